@@ -3,8 +3,8 @@ import re
 
 from absint import Undecidable, tabulate
 from cfg import cfg_of
-from expr import Exprs, fmt, walk, contains
-from mirutil import is_call, dominating_conds, cond_bool
+from expr import Exprs, fmt, walk, contains, strip_tags
+from mirutil import is_call, dominating_conds, cond_bool, for_loops
 from framework import site_of
 import callgraph as cgmod
 import symbols
@@ -86,6 +86,121 @@ def run(F, rep):
     rep.assumptions = ["finite-domain evaluation of the IR of is_literal/decode_literal and of the FASTA byte filter is exact (unsupported constructs fail closed)",
                        "the LZ encoder is applied to sequences over the symbol domain produced by the FASTA reader"]
     alpha_rules(F, rep, "C09")
+    back_rules(F, rep)
+
+
+def back_rules(F, rep):
+    """C09-BACK: the backward-extension budget.  The encoder pops `len_bck` bytes off its output before a match,
+    which is only sound when those bytes are single-byte literal records: the budget handed to the matcher must
+    never count bytes that belong to a multi-byte record (N-run or match)."""
+    R = "C09-BACK"
+    enc = F.funcs.get(LZ + "encode")
+    fm = F.funcs.get(LZ + "find_best_match_lp")
+    lit = F.funcs.get(LZ + "encode_literal")
+    if not rep.floor(R, sum(1 for x in (enc, fm, lit) if x), 3, "encode, find_best_match_lp, encode_literal"):
+        return
+    ex = Exprs(enc)
+    g = cfg_of(enc)
+    from mirutil import local_updates
+    msites = [(bi, t) for bi, t in enc.calls() if not t.get("indirect") and t["callee"] == fm.key]
+    if not rep.floor(R, len(msites), 1, "matcher call in encode"):
+        return
+    budget = {strip_tags(ex.operand(t["args"][-1])) for bi, t in msites}
+    bvar = next(iter(budget)) if len(budget) == 1 else None
+    okb = isinstance(bvar, tuple) and bvar[0] == "var"
+    rep.ob(R, "the matcher's backward budget is a counter local of encode", okb, detail=str([fmt(b) for b in budget]), key=R + " | budget is a local")
+    if not okb:
+        return
+    B = bvar[1]
+    ups = [(bi, er) for nm, bi, e, er in local_updates(enc, ex) if nm == B]
+    resets = {bi for bi, er in ups if er == ("const", 0)}
+    incs = {bi for bi, er in ups if er == ("bin", "Add", ("const", 1), ("self",))}
+    other = [(bi, er) for bi, er in ups if bi not in resets and bi not in incs and er != ("field", ("self",), "0")]
+    rep.ob(R, "the budget is only reset to zero or incremented by one", not other, detail="other updates: %s" % [fmt(e) for _, e in other][:4], key=R + " | budget updates")
+    # emitters: LZ helpers that receive the output buffer mutably
+    def is_emitter(t):
+        c = t.get("callee", "")
+        if t.get("indirect") or not c.startswith(LZ) or c == fm.key:
+            return False
+        cf = F.funcs.get(c)
+        return bool(cf) and any(cf.locals[l]["ty"].replace(" ", "") in ("&mutalloc::vec::Vec<u8>", "&mutVec<u8>") for l in cf.arg_names())
+    emit_lit = {bi for bi, t in enc.calls() if is_emitter(t) and t["callee"] == lit.key}
+    emit_rec = {bi for bi, t in enc.calls() if is_emitter(t) and t["callee"] != lit.key}
+    rep.floor(R, len(emit_rec), 2, "multi-byte record emitters called from encode (N-run, match)")
+    rep.floor(R, len(emit_lit), 3, "literal emitter calls in encode")
+    # forward may-analysis: 'dirty' = a multi-byte record was emitted since the budget was last reset
+    dirty_in = {b: False for b in g.reach}
+    changed = True
+    while changed:
+        changed = False
+        for b in sorted(g.reach):
+            st = dirty_in[b]
+            # statements first (reset), then the terminator (emit)
+            out = st
+            if b in resets:
+                out = False
+            if b in emit_rec:
+                out = True
+            for s in g.succ[b]:
+                if s in g.reach and out and not dirty_in[s]:
+                    dirty_in[s] = True
+                    changed = True
+    for bi, t in msites:
+        rep.ob(R, "no multi-byte record is counted in the backward budget: every N-run/match emission is followed by budget = 0 before the matcher is asked again",
+               not dirty_in[bi], detail="a path from %s reaches the matcher call without resetting `%s`" % (
+                   [site_of(enc, enc.blocks[b]["term"]) for b in sorted(emit_rec) if _reaches_without(g, b, bi, resets)], B) if dirty_in[bi] else "",
+               site=site_of(enc, t), key=R + " | reset after record")
+    # each increment is paid for by one literal emitted in the same iteration
+    loops = g.loops()
+    for bi in sorted(incs):
+        inner = min([body for h, body in loops if bi in body], key=len, default=None)
+        doms = [l for l in emit_lit if g.dominates(l, bi) and (inner is None or l in inner)]
+        rep.ob(R, "every increment of the budget follows a literal emitted in the same iteration", bool(doms),
+               site="%s:%s" % (enc.file, enc.blocks[bi]["stmts"][0]["sp"].get("line", "?") if enc.blocks[bi]["stmts"] else "?"), key=R + " | increment paired with literal")
+    rep.floor(R, len(incs), 2, "budget increments")
+    # bytes are removed from the output only by the backward-extension loop, bounded by the matcher's answer
+    pops = [(bi, t) for bi, t in enc.calls() if re.search(r"Vec::<T, A>::(pop|truncate|drain|clear|remove)$", t["callee"])
+            and "u8" in t.get("callee_disp", "u8")]
+    fl = for_loops(enc, ex)
+    for bi, t in pops:
+        inl = [L for L in fl if bi in L["body"] and L["range"]]
+        ok = False
+        det = "not inside a counted loop"
+        if inl and t["callee"].endswith("::pop"):
+            L = min(inl, key=lambda l: len(l["body"]))
+            end = L["range"][1]
+            ok = L["range"][0] == ("const", 0) and contains(end, lambda x: isinstance(x, tuple) and x[0] == "call" and x[1] == fm.key)
+            det = "loop bound %s" % fmt(end)
+        rep.ob(R, "output bytes are removed only by the backward-extension loop, `len_bck` times as answered by the matcher", ok, detail=det,
+               site=site_of(enc, t), key=R + " | pops bounded")
+    rep.floor(R, len(pops), 1, "removals from the output buffer")
+    # inside the matcher the backward scan is limited by the budget parameter
+    exm = Exprs(fm)
+    pname = list(fm.arg_names().values())[-1]
+    guards = []
+    for bi, b in enumerate(fm.blocks):
+        tt = b["term"]
+        if tt["k"] == "switch" and not b["cleanup"]:
+            e = exm.operand(tt["discr"])
+            if isinstance(e, tuple) and e[0] == "bin" and e[1] in ("Lt", "Le") and contains(e, lambda x: x == ("param", pname)):
+                guards.append(fmt(e))
+    rep.ob(R, "the matcher's backward scan is bounded by its budget parameter", bool(guards), detail="guards: %s" % guards[:2],
+           site="%s:%d" % (fm.file, fm.line_lo), key=R + " | matcher honours budget")
+
+
+def _reaches_without(g, a, b, avoid):
+    seen, st = set(), [s for s in g.succ[a]]
+    while st:
+        x = st.pop()
+        if x in seen or x not in g.reach:
+            continue
+        seen.add(x)
+        if x == b:
+            return True
+        if x in avoid:
+            continue
+        st.extend(g.succ[x])
+    return False
 
 
 def alpha_rules(F, rep, pid):
